@@ -180,7 +180,8 @@ CLAIMED = {
                  'mode is ValueError and it occurs exactly when no such rewriting exists.  The string functions are compared '
                  'with the implementation on all 2-operand strings over a 3-letter alphabet with ellipsis placements (seeded '
                  'sample in quick, exhaustive in thorough); dense(op.T) = dense(op).T and op.mv = numpy.einsum are the oracles.'
-                 ' EXECUTABLE KERNEL (FuraxModel/EinsumEval.lean, Props/C14Eval.lean): einsum2 is a total two-operand einsum compiled into the driver; its pairing with a cotangent is the form Phi (einsum2_pairing), so the rewritten subscripts give the adjoint of the EXECUTABLE kernel for all fitting data, letters only and with an ellipsis (terms_adjoint, terms_adjoint_ellipsis), it is linear for every string, and every rejection is ValueError; op.mv is compared with the kernel (JAX dialect) entry by entry on every evaluated string, and the operator is exercised on pytrees (shared blocks / one block array per leaf).'),
+                 ' EXECUTABLE KERNEL (FuraxModel/EinsumEval.lean, Props/C14Eval.lean): einsum2 is a total two-operand einsum compiled into the driver; its pairing with a cotangent is the form Phi (einsum2_pairing), so the rewritten subscripts give the adjoint of the EXECUTABLE kernel for all fitting data, letters only and with an ellipsis (terms_adjoint, terms_adjoint_ellipsis), it is linear for every string, and every rejection is ValueError; op.mv is compared with the kernel (JAX dialect) entry by entry on every evaluated string, and the operator is exercised on pytrees (shared blocks / one block array per leaf).'
+                 ' CLOSED (Props/C14Closed.lean): the dense leaf with one shared block array is part of the list denotation of C01-C06 (denseLeaf = the kernel on every leaf); under denseOK (decided by the driver, denseCheck_iff) lengths are honest, the leaf transposeOp builds denotes the adjoint map (denseLeaf_adjoint, dense_transposeOp), transposing twice gives back the map, the matrix of the transpose is the transposed matrix; the read-back of the rewritten string is proved (parseSubscripts_readback). Known finding F20: a letter repeated in the block term on axes of sizes 1 and n (jnp.einsum stretches, numpy.einsum refuses) is transposed wrongly.'),
         'note': ('Trusted: Lean kernel + Mathlib Finset sums + standard axioms; A1 (jnp.einsum = numpy.einsum, re-checked); the '
                  'identification of jnp.einsum with the bilinear form Phi (an ellipsis is a block of further letters).'),
         'technique': 'Lean 4 proof (assignment bijection under a letter swap) + differential correspondence of the string rewriting',
